@@ -164,7 +164,7 @@ def main():
     ap.add_argument("--max-checks", type=int, default=3)
     a = ap.parse_args()
     os.makedirs(os.path.join(a.out, "patches"), exist_ok=True)
-    files = [f for f in (a.files.split(",") if a.files else sorted(FILE_PROPS)) if FILE_PROPS.get(f)]
+    files = [f for f in (a.files.split(",") if a.files else sorted(FILE_PROPS)) if FILE_PROPS.get(f) and os.path.exists(os.path.join(REPO, f))]
     W = "/var/tmp/mutw%d" % a.worker
     shutil.rmtree(W, ignore_errors=True)
     os.makedirs(W)
